@@ -113,7 +113,9 @@ def props_of(finding, trace, sc):
     if base == "reform":
         return {"C19"}
     if base == "orphan":
-        return {"C01", "C08", "C13", "C14", "C19"}
+        # (an indicator working on a candle list its Hexital no longer feeds sees candles that are not the
+        #  resampling of the stream: it counts against the manager properties as well)
+        return {"C01", "C03", "C08", "C11", "C12", "C13", "C14", "C15", "C19"}
     if base == "read":
         return {"C20"}
     if base == "work":
